@@ -31,7 +31,7 @@ F(r) ==
        [] f[5] = "result" -> v.cout = "ok" /\ p.cout = "ok" /\ ~SameRes(v.res, p.res)
        [] f[5] = "not-source-tree" -> v.cout = "ok" /\ v.dok /\ AllOffM(r.m) /\ ~TreeEq(v.dtree, Plain(r.tree))}
 
-PCJ == [StdPC EXCEPT !.ops = {"f", "g", "h", "p"}]
+PCJ == [StdPC EXCEPT !.ops = {"f", "g", "h", "p", "one", "zt", "zf"}]
 Drifts(r) ==
   {f \in {<<"DRIFT", r.id, k, "infix-parser">> : k \in Idx(r.infix)} :
      LET v == r.infix[f[3]]
